@@ -19,6 +19,7 @@ type c10Base struct {
 	mode    string // recv | send | await | gate | respond
 	trigger string // failread | wfail | stop
 	pos     int
+	slow    int64 // > 0: after the trigger the clock advances by this many ms BEFORE the handlers (whose contexts are done) return
 }
 
 func c10BaseActs(b c10Base) []SAct {
@@ -155,6 +156,7 @@ func c10Script(b c10Base) func(r *svRig, step int) *SAct {
 	seq := append(append(append([]SAct{}, base[:pos]...), c10Trigger(b.trigger)), base[pos:]...)
 	i := 0
 	triggered := false
+	slept := false
 	phase := 0
 	guard := 0
 	honour := func(r *svRig) *SAct {
@@ -169,6 +171,11 @@ func c10Script(b c10Base) func(r *svRig, step int) *SAct {
 	return func(r *svRig, step int) *SAct {
 		if guard++; guard > 400 {
 			return nil
+		}
+		if triggered && b.slow > 0 && !slept {
+			// handlers that take their time to wind down after their context ended: Serve has to wait for them all the same
+			slept = true
+			return &SAct{Op: "tick", D: b.slow}
 		}
 		if triggered {
 			if a := honour(r); a != nil {
@@ -288,6 +295,19 @@ func TestC10(t *testing.T) {
 			n := len(c10BaseActs(c10Base{nu: 1, ns: ns, mode: "ctxover"}))
 			for pos := 0; pos <= n; pos++ {
 				run(c10Base{nu: 1, ns: ns, mode: "ctxover", trigger: trig, pos: pos}, "ctx-over")
+			}
+		}
+	}
+
+	// handlers that wind down slowly: after the trigger 3 s / 1 min / 1 h of virtual time pass before the handlers (contexts
+	// done) return; Serve must not have returned while a stream handler is still running
+	for _, slow := range []int64{3000, 60000, 3600000} {
+		for _, mode := range []string{"recv", "await", "gate"} {
+			for _, hn := range [][2]int{{0, 1}, {1, 1}, {0, 2}, {1, 2}} {
+				for _, trig := range []string{"failread", "wfail", "stop"} {
+					n := len(c10BaseActs(c10Base{nu: hn[0], ns: hn[1], mode: mode}))
+					run(c10Base{nu: hn[0], ns: hn[1], mode: mode, trigger: trig, pos: n, slow: slow}, "slow-handlers", fmt.Sprintf("slow=%d", slow))
+				}
 			}
 		}
 	}
